@@ -251,13 +251,62 @@ class C14(vlib.Driver):
 
     def __init__(self):
         self.agents = {}
+        self.applied = {}
         self.notes = []
 
     # ---------------------------------------------------------------- agents (cached per configuration)
     def agent(self, key, build):
-        if key not in self.agents:
-            self.agents[key] = build()
-        return self.agents[key]
+        """fresh agent of this configuration, or (case["hist"]) the agent after a history of real evolutionary
+        operations; the callers re-install the pinned outputs afterwards (the networks were rebuilt)"""
+        hist = tuple(getattr(self, "_hist", None) or ())
+        k = (key, hist)
+        if k not in self.agents:
+            ag = build()
+            applied = []
+            for op in hist:
+                ag, name = self.apply_op(ag, op)
+                applied.append(name)
+            self.agents[k] = ag
+            self.applied[k] = applied
+        self._applied = self.applied.get(k, [])
+        return self.agents[k]
+
+    MUT = None
+
+    def apply_op(self, ag, op):
+        """one real evolutionary operation: Mutations.architecture_mutate with the sampled method forced to the
+        advertised method `arch:<name>`, Mutations.parameter_mutation / activation_mutation, clone(), checkpoint round trip"""
+        import agilerl.hpo.mutation as mm
+        if C14.MUT is None:
+            C14.MUT = mm.Mutations(0, 1, 0.5, 1, 1, 0, rand_seed=7)
+        m = C14.MUT
+        if op.startswith("arch:"):
+            pol = ag.actor if hasattr(ag, "actor") else ag.actors[0]
+            methods = sorted(pol.mutation_methods)
+            want = op[5:]
+            if want not in methods:          # e.g. encoder.add_node on a multi-input encoder: take the corresponding one
+                cands = [x for x in methods if x.split(".")[0] == want.split(".")[0] and ("add" in x) == ("add" in want)]
+                want = (cands or methods)[0]
+            with patched((mm, "get_architecture_mut_method", lambda *a, _w=want, **k: _w)):
+                ag = m.architecture_mutate(ag)
+            return ag, "arch:" + want
+        if op == "param":
+            return m.parameter_mutation(ag), op
+        if op == "act":
+            return m.activation_mutation(ag), op
+        if op == "clone":
+            return ag.clone(), op
+        if op == "ckpt":
+            d = vlib.BUILD / "C14_ckpt"
+            d.mkdir(parents=True, exist_ok=True)
+            f = d / f"agent_{id(ag)}.pt"
+            ag.save_checkpoint(str(f))
+            try:
+                new = type(ag).load(str(f))
+            finally:
+                f.unlink(missing_ok=True)
+            return new, op
+        raise ValueError(op)
 
     # ---------------------------------------------------------------- generation
     def generate(self, tier, rng):
@@ -268,7 +317,57 @@ class C14(vlib.Driver):
         cases += self.gen_value_based(tier, rng)
         cases += self.gen_maddpg(tier, rng)
         cases += self.gen_ppo(tier, rng)
+        cases += self.gen_history(cases, tier, rng)
         return cases
+
+    ARCH = ["head_net.add_layer", "head_net.remove_layer", "head_net.add_node", "head_net.remove_node",
+            "encoder.add_node", "encoder.remove_node", "add_latent_node", "remove_latent_node"]
+    HISTORIES = [["arch:" + a] for a in ARCH] + [["param"], ["act"], ["clone"], ["ckpt"],
+                                                 ["arch:add_latent_node", "clone"], ["clone", "arch:remove_latent_node"],
+                                                 ["arch:add_latent_node", "ckpt"], ["arch:head_net.add_layer", "arch:add_latent_node"],
+                                                 ["arch:remove_latent_node", "arch:add_latent_node", "param"]]
+
+    def gen_history(self, fresh, tier, rng):
+        """the same calls on agents that first went through a history of evolutionary operations"""
+        pools = {}
+
+        def put(name, c):
+            pools.setdefault(name, []).append(c)
+        for c in fresh:
+            f = c["fam"]
+            if f == "dqn" and c["masks"] is not None and not c["single"]:
+                put("dqn:" + ("composite" if c["obs"] in ("dict", "tuple") else "flat"), c)
+            elif f in ("rainbow", "cqn") and c["masks"] is not None and c["obs"] == "vec":
+                put(f, c)
+            elif f in ("ucb", "ts") and c["mask"] is not None:
+                put(f, c)
+            elif f == "ddpg" and c["box"] in ("asym", "perdim") and c["obs"] == "vec":
+                put(f"ddpg:{c['act']}", c)
+            elif f == "td3" and c["box"] in ("asym", "perdim") and c["obs"] == "vec":
+                put("td3", c)
+            elif f in ("maddpg_cont", "matd3_cont") and c["act"] is not None:
+                put(f + (":train" if c["training"] else ":eval"), c)
+            elif f in ("maddpg_disc", "matd3_disc"):
+                put(f, c)
+            elif f == "ppo_box" and not c["training"] and c["box"] in ("sym", "asym", "perdim", "one") and c.get("obs", "vec") == "vec":
+                put("ppo_box:" + ("squash" if c["squash"] else "clip"), c)
+            elif f == "ppo_box" and c["training"] and c["squash"] and c.get("obs", "vec") == "vec":
+                put("ppo_box:squash-train", c)
+            elif f == "ppo_disc" and c["masks"] is not None and c.get("obs", "vec") == "vec":
+                put("ppo_disc:" + c["space"], c)
+            elif f == "ippo":
+                put("ippo:" + ("train" if c["training"] else "eval"), c)
+        out = []
+        per = 1 if tier == "quick" else 3
+        for name in sorted(pools):
+            pool = pools[name]
+            for hi, h in enumerate(self.HISTORIES):
+                for k in range(per):
+                    c = dict(pool[(hi * 7 + k * 3) % len(pool)])
+                    c["hist"] = list(h)
+                    c["oseed"] = rng.randrange(10 ** 6)
+                    out.append(c)
+        return out
 
     def logit_patterns(self, mask, rng):
         """legal logits low / masked high, ties, all within 80 of each other on the legal side"""
@@ -508,7 +607,15 @@ class C14(vlib.Driver):
 
     # ---------------------------------------------------------------- implementation
     def run_impl(self, case):
-        return getattr(self, "run_" + case["fam"].split("_")[0])(case)
+        self._hist = case.get("hist")
+        self._applied = []
+        try:
+            obs = getattr(self, "run_" + case["fam"].split("_")[0])(case)
+        finally:
+            self._hist = None
+        if case.get("hist"):
+            obs["hist_applied"] = list(self._applied)
+        return obs
 
     def call(self, f):
         """run the implementation's get_action; an exception of the implementation is an observation"""
@@ -1273,6 +1380,7 @@ class C14(vlib.Driver):
     def classify(self, case, obs):
         fam = case["fam"]
         labs = [f"fam={fam}", f"obs={case.get('obs', 'vec')}", "single" if case.get("single") else "batched"]
+        labs += ["history=" + "+".join(obs.get("hist_applied", case["hist"]))] if case.get("hist") else ["history=fresh"]
         if fam == "dqn":
             labs += [f"n={case['n']}", f"eps={case['eps']}", "mask=none" if case["masks"] is None else "mask=given",
                      f"maskfmt={case.get('maskfmt', 'array')}"]
